@@ -779,7 +779,7 @@ class Lib:
         if last2 == 'Stdio::inherit':
             return Opaque('Stdio')
         if last2 == 'Instant::now':
-            return Opaque('Instant')
+            return Opaque('Instant', t=I.fresh('instant_now', 'bv', 64))
         if last2 == 'SystemTime::now':
             return Opaque('SystemTime', t=I.fresh('now', 'bv', 64))
         if last2 in ('env::var_os', 'env::var'):
@@ -1666,7 +1666,12 @@ class Lib:
             pass
         if tag == 'Instant':
             if method == 'elapsed':
-                return Opaque('Duration', t=0)
+                # time elapsed since an earlier instant: any non-negative amount (environment choice)
+                return Opaque('Duration', t=I.fresh('elapsed', 'bv', 64))
+            if method in ('duration_since', 'saturating_duration_since'):
+                return Opaque('Duration', t=I.fresh('elapsed', 'bv', 64))
+            if method == 'checked_duration_since':
+                return some(Opaque('Duration', t=I.fresh('elapsed', 'bv', 64)))
         if tag == 'Duration':
             if method in ('as_millis', 'as_secs', 'as_nanos', 'as_micros'):
                 return v.get('t')
